@@ -126,10 +126,25 @@ class GenerateWasmVisitor(Visitor.DefaultVisitor):
     def GetContext(self):
         return self.__ctx
 
+    def v_Instruction(self, instruction: LinearIR.Instruction, ctx: Context):
+        # Every instruction class we can translate has its own handler, so
+        # ending up here means the construct is not supported. Report it,
+        # dropping it silently would produce a module that computes
+        # something else
+        raise RuntimeError(
+            f"Cannot translate to WebAssembly: {instruction.OpCode.name}"
+        )
+
     def v_VariableAccessInstruction(
         self, vai: LinearIR.VariableAccessInstruction, ctx: Context
     ):
         assert ctx.Code
+        if (
+            vai.Store is not None
+            or vai.Scope != LinearIR.VariableAccessScope.FUNCTION_ARGUMENT
+        ):
+            self.v_Instruction(vai, ctx)
+
         if vai.Scope == LinearIR.VariableAccessScope.FUNCTION_ARGUMENT:
             index = vai.Variable
             ctx.Code.AddInstruction(
